@@ -38,6 +38,13 @@ def gen_shape(rng):
         n = rng.randrange(1, 5)
         vals = sorted(rng.sample(range(0, 8), n))
         return ["enum", vals, 3]
+    if rng.random() < 0.4:
+        # a data.Struct class whose fields have defaults: a member without init= starts from those defaults
+        fl = []
+        for j in range(rng.randrange(1, 4)):
+            fw, fs = rng.choice([1, 2, 3]), rng.random() < 0.3
+            fl.append([f"f{j}", fw, fs, rng.randrange(-(1 << (fw - 1)), 1 << (fw - 1)) if fs else rng.randrange(0, 1 << fw)])
+        return ["sclass", fl]
     return ["struct", [[f"f{j}", rng.choice([1, 2, 3]), rng.random() < 0.3] for j in range(rng.randrange(1, 4))]]
 
 
@@ -51,7 +58,7 @@ def shape_width_signed(sh):
         return range_shape(range(sh[1], sh[2]))
     if sh[0] == "enum":
         return sh[2], False
-    return sum(w for _, w, _ in sh[1]), False
+    return sum(f[1] for f in sh[1]), False
 
 
 def gen_init(rng, sh):
@@ -67,21 +74,21 @@ def gen_init(rng, sh):
         return rng.randrange(sh[1], sh[2])
     if sh[0] == "enum":
         return rng.choice(sh[1])
-    return {f: (rng.randrange(-(1 << (w - 1)), 1 << (w - 1)) if s else rng.randrange(0, 1 << w)) for f, w, s in sh[1]}
+    return {f[0]: (rng.randrange(-(1 << (f[1] - 1)), 1 << (f[1] - 1)) if f[2] else rng.randrange(0, 1 << f[1])) for f in sh[1]}
 
 
 def init_bits(sh, init):
     """Raw bit pattern of the initial value."""
     w, s = shape_width_signed(sh)
-    if init is None:
-        if sh[0] == "enum":
-            return sh[1][0] if False else 0
+    if init is None and sh[0] != "sclass":
         return 0
-    if sh[0] == "struct":
+    if sh[0] in ("struct", "sclass"):
         v = 0
         pos = 0
-        for f, fw, fs in sh[1]:
-            v |= (init.get(f, 0) & ((1 << fw) - 1)) << pos
+        for f in sh[1]:
+            fname, fw = f[0], f[1]
+            dflt = f[3] if sh[0] == "sclass" else 0          # (fields not mentioned keep the class's default)
+            v |= ((init or {}).get(fname, dflt) & ((1 << fw) - 1)) << pos
             pos += fw
         return v
     return init & ((1 << w) - 1) if w else 0
@@ -128,6 +135,14 @@ def real_shape(sh):
             body = "\n".join(f"    M{v} = {v}" for v in sh[1])
             exec(f"class E{len(_enum_cache)}(aenum.Enum, shape={sh[2]}):\n{body}\nresult = E{len(_enum_cache)}", ns)
             _enum_cache[key] = ns["result"]
+        return _enum_cache[key]
+    if sh[0] == "sclass":
+        key = repr(sh[1])
+        if key not in _enum_cache:
+            ns = {"__annotations__": {f[0]: (signed(f[1]) if f[2] else unsigned(f[1])) for f in sh[1]}}
+            for f in sh[1]:
+                ns[f[0]] = f[3]
+            _enum_cache[key] = type(f"Rec{len(_enum_cache)}", (data.Struct,), ns)
         return _enum_cache[key]
     return data.StructLayout({f: (signed(w) if s else unsigned(w)) for f, w, s in sh[1]})
 
